@@ -203,6 +203,11 @@ def _scorer_subset(case, gd):
             dm.add_value(i, j, d[i, j])
     plates = {int(p_.plate_id): p_ for p_ in screen.plates}
     scorer = attach(gd, "GaussianDBALScorer")(max_chunk=case["max_chunk"], max_triples=budget)
+    # other scorer objects with other budgets: one constructed afterwards, one that has already scored these plates; both stay alive
+    other_budget = 1 if min(budget, math.comb(n, 3)) > 1 else math.comb(n, 3) + 2
+    decoys = [attach(gd, "GaussianDBALScorer")(max_chunk=case["max_chunk"] + 1, max_triples=other_budget)]
+    decoys[0].score(plates=plates, distance_matrix=dm, samples=holder, rng=np.random.default_rng(case["seed"] + 3), progress_bar=False)
+    decoys.append(attach(gd, "GaussianDBALScorer")(max_chunk=1, max_triples=other_budget))
     if n >= 4 and case["seed"] % 2 == 0:
         # the scorer object has been used before with FEWER posterior samples (an earlier round of a simulation)
         small = ThetaHolder(n_thetas=n - 1)
